@@ -54,6 +54,8 @@ type ShipConnection struct {
 	handshakeTimerType     timeoutTimerType
 	handshakeTimerStopChan chan struct{}
 	handshakeTimerMux      sync.Mutex
+	// set when the connection gets closed: from then on no handshake timer is armed any more
+	handshakeTimerClosed bool
 	// generation of the most recently armed timer, increased on every arm and stop
 	// a timer goroutine only delivers its timeout if its generation is still the current one
 	handshakeTimerGeneration uint64
@@ -192,6 +194,8 @@ func (c *ShipConnection) CloseConnection(safe bool, code int, reason string) {
 	c.shutdownOnce.Do(func() {
 		first = true
 
+		// a decision of the user or a message that is being handled at this moment must not arm a timer any more
+		c.setHandshakeTimerClosed()
 		c.stopHandshakeTimer()
 
 		// handshake is completed if approved or aborted
